@@ -5,6 +5,7 @@
 //
 //	R <N> <C> <faulty csv|-> <proposers csv> op;op;…
 //	  P,<to>,<p>,<ver>                       the proposal (version ver) of proposer p reaches honest node <to>
+//	  PP,<to>,<p>,<ver>                      … reaches <to> but is parked in its msg pool only (tx verification pending)
 //	  T,<i>,<k>                              timer k fires at honest node i (0 propose, 1 2nd-propose, 2 endorse, 3 endorse-empty, 4 commit: needs the hook's ledger stub)
 //	  D,<i>,<k>,<to> / DO,<i>,<to> / DX,<i>  k-th broadcast of honest i reaches <to> / all its broadcasts so far reach <to> / reach everybody
 //	  X,<f>,<kind>,<p>,<ver>,<fe>,<as>,<to>  Byzantine f sends to <to> a message about proposal (p,ver): kind e = endorsement,
@@ -148,6 +149,29 @@ func execServer(line string, f []string) hx.Result {
 				s.extra[p][[2]uint64{uint64(p), ver}] = true
 			}
 			s.nodes[to].Deliver(p, s.proposal(p, ver))
+		case a[0] == "PP" && len(a) == 4:
+			// the proposal reaches <to> but stays in its msg pool only (transactions still being verified); needs the hook's
+			// ParkProposal (a no-op with an older hook)
+			to, o1 := pu32(a[1])
+			p, o2 := pu32(a[2])
+			ver, o3 := pu64(a[3])
+			if !o1 || !o2 || !o3 || ver > 1 {
+				return hx.Result{Out: bad}
+			}
+			if !s.isHonest(to) || p >= N || !isProposer[p] || (s.isHonest(p) && ver != 0) {
+				continue
+			}
+			if s.isHonest(p) {
+				if s.extra[p] == nil {
+					s.extra[p] = map[[2]uint64]bool{}
+				}
+				s.extra[p][[2]uint64{uint64(p), ver}] = true
+			}
+			if pk, ok := interface{}(s.nodes[to]).(interface {
+				ParkProposal(vbft.ConsensusMsg) string
+			}); ok {
+				pk.ParkProposal(s.proposal(p, ver))
+			}
 		case a[0] == "T" && len(a) == 3:
 			i, o1 := pu32(a[1])
 			k, o2 := pu32(a[2])
@@ -288,6 +312,25 @@ func execServer(line string, f []string) hx.Result {
 			}
 		}
 	}
+	// the sealed proposal must be the one the node's own commit verdict names (map order: asked several times)
+	mismatch := ""
+	for _, i := range honest {
+		if sl := s.nodes[i].Sealed(); sl != nil {
+			pool := s.nodes[i].Pool()
+			named, anyDone := false, false
+			for k := 0; k < 8; k++ {
+				if p, _, done := pool.CommitDone(srvHeight, C, N); done {
+					anyDone = true
+					if p == sl.Proposer {
+						named = true
+					}
+				}
+			}
+			if anyDone && !named && mismatch == "" {
+				mismatch = fmt.Sprintf("node %d sealed a block of proposer %d, its commit verdict names another proposer", i, sl.Proposer)
+			}
+		}
+	}
 	nsealed := 0
 	for _, g := range groups {
 		nsealed += len(g)
@@ -311,9 +354,17 @@ func execServer(line string, f []string) hx.Result {
 	if s.byzSent {
 		res.Kind += "+byz-msgs"
 	}
+	if mismatch != "" && len(groups) <= 1 {
+		cls := "server:sealed-proposal-not-named-by-verdict"
+		res.Kind += ":" + cls
+		res.Class, res.Fail = cls, mismatch
+		return res
+	}
 	if len(groups) > 1 {
 		var cls string
 		switch {
+		case mismatch != "":
+			cls = "server:sealed-proposal-not-named-by-verdict"
 		case inv && single && len(pv) > 1:
 			cls = "server:partial-theorem-refuted"
 		case !inv:
@@ -347,8 +398,8 @@ func execServer(line string, f []string) hx.Result {
 		for _, k := range keys {
 			ds = append(ds, fmt.Sprintf("%v seal %d.%d/%s", groups[k], k.p, k.ver, c31pool.B(k.fe)))
 		}
-		res.Fail = fmt.Sprintf("real Servers (processMsgEvent/processTimerEvent/endorseBlock/commitBlock) sealed different blocks at one height with %d of %d peers Byzantine: %s %s",
-			nf, N, strings.Join(ds, "; "), mon)
+		res.Fail = fmt.Sprintf("real Servers (processMsgEvent/processTimerEvent/endorseBlock/commitBlock) sealed different blocks at one height with %d of %d peers Byzantine: %s %s %s",
+			nf, N, strings.Join(ds, "; "), mon, mismatch)
 	}
 	return res
 }
